@@ -116,42 +116,95 @@ def rule_mmb_table(prog, root, fixture=False):
         if not fn.qn.endswith("MmbFile::MmbFile"):
             continue
         loc = "%s:%d" % (fn.relfile(), fn.line)
-        # the switch on the status byte
+        # which slots get a real view?  the guard of the statement that constructs the data-bearing FileView
+        guard = None
+        for n in fn.walk():
+            if n.get("k") == "IfStmt" and "then" in n["parts"]:
+                then = n["c"][n["parts"]["then"]]
+                if any(x.get("k") in ("CXXConstructExpr", "CXXTemporaryObjectExpr") and notpl(x.get("cls") or "").endswith("FileView")
+                       and len(x.get("c", [])) >= 8 for x in walk(then)):
+                    guard = strip_all(n["c"][n["parts"]["cond"]])
+        if guard is None:
+            raise AnalysisBroken("MmbFile: cannot find the condition under which a slot's view is created")
+        statuses = sorted(set(types) | {0x00, 0x0F, 0xF0, 0xFF})
+        present = {}      # status -> 0/1, "default" -> 0/1
         sw = None
-        for n in fn.walk():
-            if n.get("k") == "SwitchStmt":
-                sw = n
-        if sw is None:
-            raise AnalysisBroken("MmbFile: slot-status switch not found")
-        from .c08 import _switch_handlers
-        handlers = _switch_handlers(fn, sw)
-        pvar = None
-        for n in fn.walk():
-            if n.get("k") == "VarDecl" and n.get("n") == "present":
-                pvar = n
-        if pvar is None:
-            raise AnalysisBroken("MmbFile: `present` flag not found")
-        init = folded(pvar["c"][0]) if pvar.get("c") else None
+        if guard.get("k") == "DeclRefExpr":
+            # flag set by a switch on the status byte
+            pvar = None
+            for n in fn.walk():
+                if n.get("k") == "VarDecl" and n.get("d") == guard.get("d"):
+                    pvar = n
+                if n.get("k") == "SwitchStmt":
+                    sw = n
+            if pvar is None or sw is None:
+                raise AnalysisBroken("MmbFile: slot-status switch not found")
+            # the flag must start afresh for every table entry: declared inside the loop that holds the switch
+            loop = None
+            for a in fn.ancestors(sw):
+                if a.get("k") == "ForStmt":
+                    loop = a
+                    break
+            fresh = loop is not None and any(x is pvar for x in walk(loop))
+            from .c08 import _switch_handlers
+            handlers = _switch_handlers(fn, sw)
+            init = folded(pvar["c"][0]) if pvar.get("c") else None
 
-        def present_for(label):
-            val = init
-            for st in handlers.get(label, []):
-                for x in walk(st):
-                    if x.get("k") == "BinaryOperator" and x.get("op") == "=" and strip_all(x["c"][0]).get("d") == pvar["d"]:
-                        val = folded(x["c"][1])
-            return val
-        labels = [k for k in handlers if k != "default"]
-        for status in sorted(set(labels) | set(types)):
-            lab = status if status in handlers else "default"
-            got = present_for(lab)
+            def present_for(label):
+                val = init if fresh else None
+                for st in handlers.get(label, []):
+                    for x in walk(st):
+                        if x.get("k") == "BinaryOperator" and x.get("op") == "=" and strip_all(x["c"][0]).get("d") == pvar["d"]:
+                            val = folded(x["c"][1])
+                return val
+            for status in statuses:
+                present[status] = present_for(status if status in handlers else "default")
+            present["default"] = present_for("default")
+            anchor = sw
+        elif guard.get("k") == "MemberExpr" and guard.get("dk") == "Field":
+            # field of a status record looked up in a constant table
+            field = guard.get("n")
+            rec_t = notpl((strip_all(guard["c"][0]).get("ct") or strip_all(guard["c"][0]).get("t") or "").replace("const ", "").replace("&", "").strip())
+            rec = [rc for rc in prog.records.values() if notpl(rc["q"]) == rec_t or notpl(rc["q"]).endswith("::" + rec_t.split("::")[-1])]
+            if not rec:
+                raise AnalysisBroken("MmbFile: record type of the slot status (%s) not found" % rec_t)
+            fnames = [f["n"] for f in rec[0]["fields"]]
+            fi = fnames.index(field)
+            table, fallback = {}, None
+            for gl in prog.globals.values():
+                gt = notpl((gl.get("ct") or gl.get("t") or "").replace("const ", ""))
+                if rec_t.split("::")[-1] not in gt or not gl.get("init"):
+                    continue
+                init = strip_all(gl["init"])
+                rows = init.get("c", []) if "[" in gt else [init]
+                for row in rows:
+                    row = strip_all(row)
+                    vals = [folded(c) for c in row.get("c", [])]
+                    if len(vals) != len(fnames) and len(vals) < fi + 1:
+                        continue
+                    if "[" in gt:
+                        table[vals[0]] = vals[fi]
+                    else:
+                        fallback = vals[fi]
+            if not table or fallback is None:
+                raise AnalysisBroken("MmbFile: cannot fold the slot-status table")
+            for status in statuses:
+                present[status] = table.get(status, fallback)
+            present["default"] = fallback
+            anchor = guard
+        else:
+            raise AnalysisBroken("MmbFile: unrecognised view guard %s" % show(guard))
+        for status in statuses:
+            got = present[status]
             want = 1 if status in present_doc else 0
-            r.add("%s::MmbFile::status 0x%02X" % (fn.relfile(), status), fn.loc(sw), got == want,
+            r.add("%s::MmbFile::status 0x%02X" % (fn.relfile(), status), fn.loc(anchor), got == want,
                   "%s -> %s" % (types.get(status, "undocumented"), "disc" if want else "unformatted") if got == want else
                   "slot status 0x%02X (%s in mmb.5) is presented as %s" %
-                  (status, types.get(status, "not documented"), "a disc" if got else "unformatted"))
-        d = present_for("default")
-        r.add("%s::MmbFile::status default" % fn.relfile(), fn.loc(sw), d == 0,
-              "unknown statuses are unformatted" if d == 0 else "an unknown slot status is presented as a disc")
+                  (status, types.get(status, "not documented"),
+                   "a disc" if got else ("whatever the previous table entry was" if got is None else "unformatted")))
+        d = present["default"]
+        r.add("%s::MmbFile::status default" % fn.relfile(), fn.loc(anchor), d == 0,
+              "unknown statuses are unformatted" if d == 0 else "an unknown slot status is not reliably presented as unformatted")
         # constants
         consts = {}
         for n in fn.walk():
@@ -183,10 +236,13 @@ def rule_mmb_table(prog, root, fixture=False):
         # status byte offset
         off = None
         for n in fn.walk():
-            if n.get("k") == "VarDecl" and n.get("n") == "slot_status" and n.get("c"):
-                s = strip_all(n["c"][0])
-                if s.get("k") == "ArraySubscriptExpr":
-                    off = folded(s["c"][1])
+            # the subscript of the per-entry pointer that feeds the status decision (not the diagnostic)
+            if n.get("k") == "ArraySubscriptExpr" and strip_all(n["c"][0]).get("n") == "entry":
+                par = fn.parent(n)
+                while par is not None and par.get("k") in ("ImplicitCastExpr", "ParenExpr"):
+                    par = fn.parent(par)
+                if par is not None and (par.get("k") == "VarDecl" or (is_call(par) and par.get("k") == "CallExpr")):
+                    off = folded(n["c"][1])
         r.add("%s::MmbFile::status-offset" % fn.relfile(), loc, off == nums.get("status_offset"),
               "type byte at 0x0F" if off == nums.get("status_offset") else "status read from offset %s, documented 0x0F" % off)
     return r
@@ -255,18 +311,38 @@ def rule_view_shapes(prog, fixture=False):
         views = [n for n in fn.walk() if n.get("k") in ("CXXConstructExpr", "CXXTemporaryObjectExpr")
                  and notpl(n.get("cls") or "").endswith("FileView") and len(n.get("c", [])) >= 8]
         if inter:
-            if len(views) != 2:
-                raise AnalysisBroken("InterleavedFile: expected two views, found %d" % len(views))
-            for idx, v in enumerate(views):
+            # each construction is evaluated for every side it stands for: two explicit constructions
+            # (side 0, side 1) or one construction in a loop `for (side = 0; side < 2; ++side)`
+            cases = []
+            if len(views) == 2:
+                cases = [(0, views[0], None), (1, views[1], None)]
+            elif len(views) == 1:
+                lp = None
+                for a in fn.ancestors(views[0]):
+                    if a.get("k") == "ForStmt":
+                        lp = a
+                        break
+                ivs = [x for x in walk(lp["c"][lp["parts"]["init"]]) if x.get("k") == "VarDecl"] if lp is not None and "init" in lp["parts"] else []
+                cond = strip_all(lp["c"][lp["parts"]["cond"]]) if lp is not None and "cond" in lp["parts"] else None
+                if ivs and cond is not None and folded(ivs[0]["c"][0]) == 0 and cond.get("op") == "<" and folded(cond["c"][1]) == 2 \
+                        and strip_all(cond["c"][0]).get("d") == ivs[0]["d"]:
+                    cases = [(0, views[0], ivs[0]["d"]), (1, views[0], ivs[0]["d"])]
+            if not cases:
+                r.undecided.append("InterleavedFile: the construction of the two side views has a shape the rule cannot follow")
+                continue
+            for idx, v, loopvar in cases:
                 skip, take, leave, total = v["c"][4:8]
                 probs = []
                 if not same_expr(take, leave):
                     probs.append("take (%s) and leave (%s) differ" % (show(take), show(leave)))
-                if idx == 0 and folded(skip) != 0:
+                sk = _skip_for_side(fn, skip, loopvar, idx, take)
+                if sk is None:
+                    r.undecided.append("InterleavedFile: cannot evaluate the skip `%s` for side %d" % (show(skip), idx))
+                    continue
+                if idx == 0 and sk != 0:
                     probs.append("side 0 does not start at offset 0")
-                if idx == 1 and not same_expr(skip, take):
+                if idx == 1 and sk != "take":
                     probs.append("side 1 starts at %s, not one track (%s) in" % (show(skip), show(take)))
-                # take is the sectors-per-track of the geometry
                 tk = strip_all(take)
                 src = tk
                 if tk.get("k") == "DeclRefExpr":
@@ -300,6 +376,35 @@ def rule_view_shapes(prog, fixture=False):
             r.add("%s::NonInterleavedFile::sides" % fn.relfile(), fn.loc(v), not probs,
                   "contiguous sides" if not probs else "; ".join(probs))
     return r
+
+
+def _skip_for_side(fn, skip, loopvar, side, take, depth=0):
+    """0, "take" or None: value of the skip expression for the given side."""
+    e = strip_all(skip)
+    if e is None or depth > 5:
+        return None
+    v = folded(e)
+    if v is not None:
+        return 0 if v == 0 else None
+    if same_expr(e, take):
+        return "take"
+    if e.get("k") == "DeclRefExpr":
+        if loopvar is not None and e.get("d") == loopvar:
+            return 0 if side == 0 else None
+        for d in fn.walk():
+            if d.get("k") == "VarDecl" and d.get("d") == e.get("d") and d.get("c"):
+                return _skip_for_side(fn, d["c"][0], loopvar, side, take, depth + 1)
+        return None
+    if e.get("k") == "BinaryOperator" and e.get("op") == "*":
+        a, b = strip_all(e["c"][0]), strip_all(e["c"][1])
+        for x, y in ((a, b), (b, a)):
+            if x.get("k") == "DeclRefExpr" and loopvar is not None and x.get("d") == loopvar and same_expr(y, take):
+                return 0 if side == 0 else "take"
+    if e.get("k") == "ConditionalOperator":
+        c = strip_all(e["c"][0])
+        if c.get("k") == "DeclRefExpr" and loopvar is not None and c.get("d") == loopvar:
+            return _skip_for_side(fn, e["c"][1] if side else e["c"][2], loopvar, side, take, depth + 1)
+    return None
 
 
 def run(ctx):
